@@ -7,7 +7,9 @@ from vlib import core, treegen as T, sandbox as SB, lhaenc as E, lhnewgen as LG,
 ID = "C06"
 LEAN_MODULES = ["LhasaV.Props.C06"]
 VH_FEATURES = []
-THEOREMS = {}
+THEOREMS = {"glob_iff": "full: match_glob = wildcard semantics for every pattern and string", "select_spec": "full", "glob_literal": "full", "glob_trailing_stars": "full",
+            "no_filter_selects_all": "full", "flatten_ignores_path": "full", "flatten_single_component": "full", "relocate_prefix": "full",
+            "(extract_tree: resulting tree = archived tree)": "correspondence: real tree = independent oracle = Fs/Extract model"}
 TRUSTED = ["abstract file system LhasaV.Model.Fs and extraction model LhasaV.Model.Extract (x/e loop with wildcard filter, overwrite "
            "policy, parent creation, two-stage directories, placeholders, print command), tied to the real tool by complete-tree / "
            "stdout comparison on every generated run, as root and as an unprivileged user",
